@@ -137,9 +137,12 @@ class MHistory:
             restart_at |= {i for i in range(n) if self.rng.random() < every}
         if getattr(d.pf, 'standby', False):
             self.guard(self.start_standby, 'standby-start')
+        burst_at = self.rng.randrange(n) if getattr(d.pf, 'burst', False) else -1
         for i in range(n):
             if self.aborted:
                 break
+            if i == burst_at:
+                d.op_burst()
             integrity = False
             for _ in range(self.rng.choice([1, 1, 2, 3])):
                 kind = d.random_op()
